@@ -1661,6 +1661,22 @@ def label_omit(prog: Program) -> RuleResult:
         gs = guards(fn, n)
         if any(pol and dotted(g) in syn_text for g, pol in gs):
             okl = True
+    # the formatted synteny itself (what leaves show) must not depend on the parent's synteny
+    for node in walk_no_nested(fn):
+        if isinstance(node, ast.Assign) and any(isinstance(t, ast.Name) and t.id in syn_text for t in node.targets):
+            value = inline(fn, node.value, node, stop=lambda n: n in syn_map or n == gene_var)
+            parent_dep = [x for x in ast.walk(value) if isinstance(x, ast.Attribute) and x.attr == "up" and dotted(x.value) == gene_var]
+            if parent_dep:
+                okl = False
+                res.fail(
+                    f"{LAYOUT}:_compute_branches/leaf-label-source",
+                    f"the text shown for a node's synteny (`{short(node.value, 100)}`) depends on the parent's synteny: a leaf "
+                    "whose synteny equals its parent's loses its label (only ancestral labels may be omitted)",
+                    mod,
+                    node,
+                )
+                return res
+            res.ok(f"{LAYOUT}:_compute_branches/leaf-label-source", "the formatted synteny depends on the node alone")
     if okl:
         res.ok(f"{LAYOUT}:_compute_branches/leaf-label", "a leaf with a synteny is labelled by it")
     else:
